@@ -1375,6 +1375,9 @@ func (g *genState) Next(s *Sim) Op {
 				if s.ModeB != nil && len(op.Refs) <= 1 && len(g.script) == 0 && r.Bool(g.prof.InjectP) {
 					// mode B: this delivery gets a block of its own in which one downstream call fails or panics
 					inj := fmt.Sprintf("%d:%d", r.Intn(12), 1+r.Intn(3))
+					if r.Bool(0.35) {
+						inj = fmt.Sprintf("s%d:%d", r.Intn(36), 1+r.Intn(3))
+					}
 					dop := op
 					g.scriptTight = true
 					g.script = []func(s *Sim) (Op, bool){
@@ -1421,6 +1424,9 @@ func (g *genState) Next(s *Sim) Op {
 			}
 			if s.ModeB != nil && len(s.Mempool) == 1 && r.Bool(g.prof.InjectP) {
 				op.Inject = fmt.Sprintf("%d:%d", r.Intn(14), 1+r.Intn(3))
+				if r.Bool(0.35) {
+					op.Inject = fmt.Sprintf("s%d:%d", r.Intn(36), 1+r.Intn(3))
+				}
 			}
 			return op
 		case "restart":
